@@ -6,6 +6,7 @@
    anywhere in the event list, for any number of concurrent operations (FProto (ev a ECrash)). *)
 From Coq Require Import ZArith List Bool Arith.
 Require Import DS.Model.Commit DS.Model.Fault DS.Proofs.CommitProofs DS.Proofs.FaultProofs.
+Require DS.Model.HintPrim DS.Model.Hint DS.Proofs.HintPadProofs.
 Import ListNotations.
 Open Scope Z_scope.
 
@@ -66,3 +67,24 @@ Example C03_nonvacuous :
   /\ a_pc (w_actors (fw x) 0%nat) = PDone AbortedPost /\ a_pc (w_actors (fw x) 1%nat) = PDone Aborted
   /\ a_pc (w_actors (fw x) 2%nat) = PDone Success /\ w_lock (fw x) = None /\ all_present x = true.
 Proof. vm_compute. repeat split. Qed.
+
+(* "Reopening" is the resolution of the pointer's content by the REGENERATED parser (Gen/GenHint.v): whitespace around the
+   content -- a trailing newline left by a shell or an editor, CR LF, blanks -- is invisible to it, whatever the content is
+   (a file name, a legacy number, garbage) and whatever the listing holds.  So the pre-state of a crash may carry its
+   pointer in any of these spellings (the fork-and-kill runs start from them) and the theorems above, which speak of
+   the pointer's VALUE, apply unchanged. *)
+Theorem C03_pointer_spelling_invisible :
+  forall (a l b : list HintPrim.cp) (es : list Hint.entry),
+  HintPadProofs.all_space a -> HintPadProofs.all_space b ->
+  Hint.parse_hint (Some (a ++ l ++ b)) = Hint.parse_hint (Some l)
+  /\ Hint.resolve (Some (Some (a ++ l ++ b))) es = Hint.resolve (Some (Some l)) es.
+Proof. exact (fun a l b es Ha Hb => conj (HintPadProofs.parse_padding a l b Ha Hb) (HintPadProofs.resolve_padding a l b es Ha Hb)). Qed.
+Print Assumptions C03_pointer_spelling_invisible.
+
+(* Non-vacuity: "v3-0123abcd.metadata.json" followed by a newline / surrounded by blanks parses to version 3 and the bare name *)
+Example C03_spelling_nonvacuous :
+  let name := Hint.render_name 3%N [0;1;2;3;10;11;12;13]%N in
+  HintPadProofs.all_space [HintPrim.acp 10%N] /\ HintPadProofs.all_space [HintPrim.acp 32%N]
+  /\ Hint.parse_hint (Some (name ++ [HintPrim.acp 10%N])) = HintPrim.PRet (Some (3%N, name))
+  /\ Hint.parse_hint (Some ([HintPrim.acp 32%N] ++ name ++ [HintPrim.acp 32%N; HintPrim.acp 10%N])) = HintPrim.PRet (Some (3%N, name)).
+Proof. vm_compute. repeat split; repeat constructor. Qed.
